@@ -240,7 +240,7 @@ struct Ctx
     int abort_other_delay = 0;
     bool abort_other_requested = false;
     bool aborted_current = false;
-    bool mon_disabled = false;
+    bool mon_disabled[2] = { false, false }; // per stream: not judged until a real stop that covers the stream
     bool tier_b = false; // a configure-while-running happened in this case
     bool disrupted = false; // a refused start-while-running stopped the cameras of the running acquisition
     int started_acqs = 0;
@@ -845,7 +845,9 @@ finish_acquisition(Ctx& x, bool by_abort, const char* how)
 {
     // called after acquire_stop / acquire_abort returned
     x.running = false;
-    x.mon_disabled = false;
+    // a real stop flushes (and rewinds) the streams that are enabled in this acquisition -- only those
+    for (size_t ai : x.cur_acqs)
+        x.mon_disabled[x.acqs[ai].stream] = false;
     if (x.disrupted) {
         by_abort = true;
         x.disrupted = false;
@@ -943,7 +945,7 @@ do_map(Ctx& x, int s)
     Mon& m = x.mon[s];
     if (m.mapped || x.c.ended || !x.rt)
         return;
-    if (x.mon_disabled) {
+    if (x.mon_disabled[s]) {
         // monitoring is not judged until the next real stop (nothing was flushed after the acquisition
         // that ended without one) -- but a reader that is registered in the runtime must keep consuming,
         // or the documented back-pressure stalls the stream
@@ -1290,7 +1292,7 @@ do_poll_done_without_stop(Ctx& x)
         return;
     x.c.cls(CL_NO_STOP);
     x.running = false;
-    x.mon_disabled = true; // nothing was flushed: monitoring is only judged again after a real stop
+    x.mon_disabled[0] = x.mon_disabled[1] = true; // nothing was flushed: monitoring of a stream is only judged again after a real stop that covers it
     for (size_t ai : x.cur_acqs) {
         AcqRec& a = x.acqs[ai];
         a.stopped = true;
